@@ -20,7 +20,7 @@ from vf.sym import conc_int, untraced
 PROPERTY = "C06"
 FUNCTIONS = ["ArgsFormatBuilder.add_*/set_*/has_*/get_*/format", "ArgsFormat.__init__/_create_builder_for_elements/has_*/get_*", "CommandOption aliases"]
 PART = {}
-BOUNDS = {"quick": "operation skeletons of length 1-3 over {add_option, add_command_option, add_argument, add_command_name, set_options, set_command_options, set_arguments}; elements from a colliding pool (3 long names, 2 short names or none, 4 alias choices, 3 argument names x required/optional/multi); 0, 1 and 2 stacked base formats",
+BOUNDS = {"quick": "operation skeletons of length 1-3 over {add_option, add_command_option, add_argument, add_command_name, set_options, set_command_options, set_arguments}; elements from a colliding pool (3 long names, 2 short names or none, 4 alias choices, 3 argument names x required/optional/optional-multi/required-multi; set_*() with one element or none); 0, 1 and 2 stacked base formats",
           "thorough": "skeletons up to length 4-5 (partitioned by the first element)"}
 OUTSIDE = ["sequences of 6-7 operations", "set_* with more than one element", "two different pools of base formats beyond the fixed three-level stack"]
 STUBS = []
@@ -31,12 +31,12 @@ LONGS = ["aa", "bb", "cc"]
 SHORTS = ["a", "b", None]
 ALIASES = [[], ["bb"], ["b"], ["cc", "a"]]
 ANAMES = ["x", "y", "z"]
-AKINDS = [Argument.REQUIRED, Argument.OPTIONAL, Argument.OPTIONAL | Argument.MULTI_VALUED]
+AKINDS = [Argument.REQUIRED, Argument.OPTIONAL, Argument.OPTIONAL | Argument.MULTI_VALUED, Argument.REQUIRED | Argument.MULTI_VALUED]
 
 # element cache: the same objects are reused so that identity comparisons between builder and format are meaningful
 _OPT = {(l, s): Option(l, s) for l in LONGS for s in SHORTS}
 _COPT = {(l, s, k): CommandOption(l, s, ALIASES[k]) for l in LONGS for s in SHORTS for k in range(4)}
-_ARG = {(n, k): Argument(n, AKINDS[k]) for n in ANAMES for k in range(3)}
+_ARG = {(n, k): Argument(n, AKINDS[k]) for n in ANAMES for k in range(4)}
 _CN = [CommandName("run", ["r"]), CommandName("go")]
 
 BASE1 = ArgsFormat([Option("cc", "b"), Argument("x", Argument.REQUIRED), CommandName("top")])
@@ -227,7 +227,7 @@ def _run(skel, base_name, idx):
     elements = []                       # accepted elements in order, for direct construction
     only_adds = True
     for step, kind in enumerate(skel):
-        i1, i2, i3 = _conc(idx[step][0], 3), _conc(idx[step][1], 3), _conc(idx[step][2], 4)
+        i1, i2, i3 = _conc(idx[step][0], 3), _conc(idx[step][1], 4 if kind in ("A", "SA") else 3), _conc(idx[step][2], 4)
         before = [_q(b, True), _q(b, False)]
         m2 = m.copy()
         if kind == "O":
@@ -269,6 +269,22 @@ def _run(skel, base_name, idx):
             only_adds = False
             if ok:
                 m2.copts.append(el)
+        elif kind in ("SO0", "SC0", "SA0", "SN0"):   # replacement by NOTHING: the own elements of that kind are dropped
+            el = None
+            ok = True
+            only_adds = False
+            if kind == "SO0":
+                m2.opts = []
+                call = lambda: b.set_options()
+            elif kind == "SC0":
+                m2.copts = []
+                call = lambda: b.set_command_options()
+            elif kind == "SA0":
+                m2.args = []
+                call = lambda: b.set_arguments()
+            else:
+                m2.names = []
+                call = lambda: b.set_command_names()
         else:                           # "SA"
             el = _ARG[(ANAMES[i1], i2)]
             m2.args = []
@@ -314,14 +330,24 @@ def _run(skel, base_name, idx):
 
 def seq(a1: int, a2: int, a3: int, b1: int, b2: int, b3: int, c1: int, c2: int, c3: int) -> bool:
     """
-    pre: 0 <= a1 <= 2 and 0 <= a2 <= 2 and 0 <= a3 <= 3 and 0 <= b1 <= 2 and 0 <= b2 <= 2 and 0 <= b3 <= 3 and 0 <= c1 <= 2 and 0 <= c2 <= 2 and 0 <= c3 <= 3
+    pre: 0 <= a1 <= 2 and 0 <= a2 <= 3 and 0 <= a3 <= 3 and 0 <= b1 <= 2 and 0 <= b2 <= 3 and 0 <= b3 <= 3 and 0 <= c1 <= 2 and 0 <= c2 <= 3 and 0 <= c3 <= 3
+    pre: _second_index_ok(PART["skel"], a2, b2, c2)
     pre: _fixed(PART["skel"], 0, a1, a2, a3) and _fixed(PART["skel"], 1, b1, b2, b3) and _fixed(PART["skel"], 2, c1, c2, c3)
     pre: PART.get("a1") is None or a1 == PART["a1"]
     post: _
     """
-    idx = [(conc_int(a1, 0, 2), conc_int(a2, 0, 2), conc_int(a3, 0, 3)), (conc_int(b1, 0, 2), conc_int(b2, 0, 2), conc_int(b3, 0, 3)),
-           (conc_int(c1, 0, 2), conc_int(c2, 0, 2), conc_int(c3, 0, 3))]
+    idx = [(conc_int(a1, 0, 2), conc_int(a2, 0, 3), conc_int(a3, 0, 3)), (conc_int(b1, 0, 2), conc_int(b2, 0, 3), conc_int(b3, 0, 3)),
+           (conc_int(c1, 0, 2), conc_int(c2, 0, 3), conc_int(c3, 0, 3))]
     return untraced(_run, PART["skel"], PART["base"], idx)
+
+
+def _second_index_ok(skel, *second):
+    """The second index has 4 values for argument kinds (4 flag kinds) and 3 for short names."""
+    for pos, v in enumerate(second):
+        kind = skel[pos] if pos < len(skel) else None
+        if v > (3 if kind in ("A", "SA") else 2):
+            return False
+    return True
 
 
 def _fixed(skel, pos, i1, i2, i3):
@@ -329,6 +355,8 @@ def _fixed(skel, pos, i1, i2, i3):
     if pos >= len(skel):
         return i1 == 0 and i2 == 0 and i3 == 0
     k = skel[pos]
+    if k in ("SO0", "SC0", "SA0", "SN0"):
+        return i1 == 0 and i2 == 0 and i3 == 0
     if k in ("O", "SO", "A", "SA"):
         return i3 == 0
     if k == "N":
@@ -380,6 +408,7 @@ def seq_twin(a1: int, a2: int, a3: int, b1: int, b2: int, b3: int, c1: int, c2: 
 
 
 QUICK = [["O"], ["C"], ["A"], ["N"], ["O", "O"], ["O", "C"], ["C", "O"], ["C", "C"], ["A", "A"], ["N", "A"], ["O", "A"],
+         ["O", "SO0", "O"], ["A", "SA0", "A"], ["C", "SC0", "C"], ["N", "SN0"], ["O", "SO0"], ["A", "SA0"],
          ["SO", "O"], ["O", "SO"], ["SC", "C"], ["C", "SC"], ["SA", "A"], ["A", "SA"], ["O", "SC", "O"], ["A", "A", "A"], ["O", "O", "O"], ["O", "A", "C"]]
 THOROUGH = QUICK + [["C", "C", "O"], ["O", "C", "C"], ["C", "O", "C"], ["C", "C", "C"], ["A", "SA", "A"], ["C", "SC", "C"], ["O", "SO", "C"], ["N", "N", "A"], ["A", "O", "A"], ["SO", "SC", "SA"]]
 
@@ -389,7 +418,7 @@ def conditions(tier):
     t = 100 if quick else 1500
     conds = []
     for skel in (QUICK if quick else THOROUGH):
-        big = len(skel) == 3 and "C" in "".join(skel).replace("SC", "C")
+        big = len(skel) == 3 and "C" in [k for k in skel if k in ("C", "SC")]
         for base in (("none", "B2") if (quick and len(skel) == 3) else ("none", "B1", "B2")):
             for a1 in ([0, 1, 2] if big else [None]):
                 conds.append({"name": "seq[%s,%s%s]" % ("".join(skel), base, "" if a1 is None else ",first=%d" % a1), "fn": seq, "timeout": t,
